@@ -66,6 +66,19 @@ func (p *ProjectionPlan) Batch(ctx *ExecuteCtx) ([][]Column, error) {
 	return p.processProjectionBatch(kvps, ctx)
 }
 
+// ownsFieldName reports whether field i is the one its name refers to. Field
+// names need not be unique (two fields with the same alias, or an alias equal to
+// the text of another field) and a name in an expression refers to the first
+// field of that name: the results cached under the name belong to that field.
+func (p *ProjectionPlan) ownsFieldName(i int) bool {
+	for j := 0; j < i; j++ {
+		if p.FieldNames[j] == p.FieldNames[i] {
+			return false
+		}
+	}
+	return true
+}
+
 func (p *ProjectionPlan) processProjectionBatch(chunk []KVPair, ctx *ExecuteCtx) ([][]Column, error) {
 	var (
 		nFields = len(p.Fields)
@@ -76,7 +89,7 @@ func (p *ProjectionPlan) processProjectionBatch(chunk []KVPair, ctx *ExecuteCtx)
 	)
 	for i := 0; i < nFields; i++ {
 		have = false
-		if ctx != nil {
+		if ctx != nil && p.ownsFieldName(i) {
 			fname := p.FieldNames[i]
 			cols[i], have = ctx.GetChunkFieldFinalResult(fname)
 		}
@@ -108,7 +121,7 @@ func (p *ProjectionPlan) processProjection(kvp KVPair, ctx *ExecuteCtx) ([]Colum
 	)
 	for i := 0; i < nFields; i++ {
 		have := false
-		if ctx != nil {
+		if ctx != nil && p.ownsFieldName(i) {
 			fname := p.FieldNames[i]
 			result, have = ctx.GetFieldResult(fname)
 		}
